@@ -1069,9 +1069,32 @@ func outsideValue(cls string, w *World) []byte {
 		return []byte(`{"id":"X","tok`)
 	case "other":
 		return []byte(`{"id":"X","token":"t-outside","priority":0}`)
+	case "shorttok":
+		return []byte(`{"id":"X","token":"abc"}`)
+	case "tok1":
+		return []byte(`{"id":"X","token":"a","priority":1}`)
+	case "tok7":
+		return []byte(`{"id":"X","token":"1234567"}`)
+	case "emptytok":
+		return []byte(`{"id":"X","token":""}`)
+	case "emptyid":
+		return []byte(`{"id":"","token":"t-outside"}`)
+	case "longtok":
+		return []byte(`{"id":"X","token":"` + strings.Repeat("t", 4096) + `"}`)
+	case "unicode":
+		return []byte(`{"id":"Ünï\u0000code","token":"tök\n\"en"}`)
+	case "nested":
+		return []byte(`{"id":{"a":["X"]},"token":["t"],"priority":{"p":1}}`)
+	case "dupkeys":
+		return []byte(`{"id":"X","id":"Y","token":"t1","token":"t2"}`)
+	case "priofloat":
+		return []byte(`{"id":"X","token":"t-outside","priority":1.5}`)
 	}
 	if strings.HasPrefix(cls, "as:") { // well-formed payload naming an instance with a foreign token
 		return []byte(`{"id":"` + cls[3:] + `","token":"t-forged"}`)
+	}
+	if strings.HasPrefix(cls, "asshort:") { // the same with a token shorter than any the library writes
+		return []byte(`{"id":"` + cls[8:] + `","token":"x1"}`)
 	}
 	if strings.HasPrefix(cls, "raw:") {
 		return []byte(cls[4:])
